@@ -400,6 +400,10 @@ func PutNamed(container []byte, signature interop.Signature,
 			domain, recordtype.TXT, std.Base58Encode(containerID))
 
 		key := append([]byte(nnsHasAliasKey), containerID...)
+		oldDomain := storage.Get(ctx, key)
+		if oldDomain != nil && oldDomain.(string) != domain {
+			deleteNNSRecords(ctx, oldDomain.(string))
+		}
 		storage.Put(ctx, key, domain)
 	}
 
